@@ -156,7 +156,9 @@ def registry(rng, srng=None):
     add('evaluation.accuracy_knee', ev.accuracy_knee, pts, knees)
     add('evaluation.get_neighbourhood', ev.get_neighbourhood, x, y, n - 2, 1)
     add('evaluation.get_neighbourhood_fast', ev.get_neighbourhood_fast, x, y, n - 2, 1)
-    # the remaining public functions (every function of the package appears in the registry)
+    # the remaining public functions (every function of the package appears in the registry, except the known-broken legacy
+    # compute_global_segment_cost - a listed finding -, rdp.plot_frame, which needs a display, and evaluation.compute_cost, whose cache
+    # argument is an in/out parameter by design)
     import uts.gradient as _grad
     add('dfdt.get_knee_gradient', df.get_knee_gradient, np.asarray(_grad.cfd(x, y), float))
     add('evaluation.get_neighbourhood_binary', ev.get_neighbourhood_binary, x, y, n - 2, 1)
